@@ -10,6 +10,84 @@
 
 namespace AssignmentHandlers {
 
+namespace {
+// *q = v で q が構造体の配列メンバー要素 (&o1.ys[1]) を指している場合、
+// ポインタは個別配列変数 "o1.ys" の array_values だけを書き換える。
+// 同じセルの残りの格納先（要素変数 "o1.ys[1]" と親構造体の
+// struct_members["ys"]）にも値を反映し、どの経路で読んでも一致させる
+void sync_struct_array_member_after_pointer_write(
+    Interpreter &interpreter, const PointerSystem::PointerMetadata *meta) {
+    using namespace PointerSystem;
+    if (!meta || meta->target_type != PointerTargetType::ARRAY_ELEMENT ||
+        !meta->array_var || meta->array_var->is_multidimensional) {
+        return;
+    }
+    const Variable *array_var = meta->array_var;
+    std::string array_name = meta->array_name;
+    if (array_name.empty() ||
+        interpreter.find_variable(array_name) != array_var) {
+        array_name = interpreter.find_variable_name_by_address(array_var);
+    }
+    size_t dot_pos = array_name.rfind('.');
+    if (array_name.empty() || dot_pos == std::string::npos) {
+        return; // 構造体メンバーではない配列は格納先が1つ
+    }
+    const size_t idx = meta->element_index;
+
+    auto copy_element = [&](Variable &dest_array) {
+        if (idx < array_var->array_values.size()) {
+            if (dest_array.array_values.size() <= idx) {
+                dest_array.array_values.resize(idx + 1, 0);
+            }
+            dest_array.array_values[idx] = array_var->array_values[idx];
+        }
+        if (idx < array_var->array_float_values.size()) {
+            if (dest_array.array_float_values.size() <= idx) {
+                dest_array.array_float_values.resize(idx + 1, 0);
+            }
+            dest_array.array_float_values[idx] =
+                array_var->array_float_values[idx];
+        }
+        if (idx < array_var->array_double_values.size()) {
+            if (dest_array.array_double_values.size() <= idx) {
+                dest_array.array_double_values.resize(idx + 1, 0);
+            }
+            dest_array.array_double_values[idx] =
+                array_var->array_double_values[idx];
+        }
+    };
+
+    // 要素変数 "o1.ys[1]"
+    Variable *element_var = interpreter.find_variable(
+        array_name + "[" + std::to_string(idx) + "]");
+    if (element_var && !element_var->is_struct) {
+        if (idx < array_var->array_values.size()) {
+            element_var->value = array_var->array_values[idx];
+        }
+        if (idx < array_var->array_float_values.size()) {
+            element_var->float_value = array_var->array_float_values[idx];
+        }
+        if (idx < array_var->array_double_values.size()) {
+            element_var->double_value = array_var->array_double_values[idx];
+        }
+        element_var->is_assigned = true;
+    }
+
+    // 親構造体の struct_members["ys"]
+    Variable *parent_var =
+        interpreter.find_variable(array_name.substr(0, dot_pos));
+    if (parent_var && parent_var->is_struct) {
+        auto member_it =
+            parent_var->struct_members.find(array_name.substr(dot_pos + 1));
+        if (member_it != parent_var->struct_members.end() &&
+            &member_it->second != array_var && member_it->second.is_array) {
+            copy_element(member_it->second);
+            member_it->second.is_assigned = true;
+        }
+    }
+}
+} // namespace
+
 void execute_assignment(StatementExecutor *executor, Interpreter &interpreter,
                         const ASTNode *node) {
 
@@ -151,6 +229,9 @@ void execute_assignment(StatementExecutor *executor, Interpreter &interpreter,
             } else {
                 meta->write_int_value(typed_value.as_numeric());
             }
+
+            // 構造体の配列メンバー要素を指している場合、他の格納先も更新
+            sync_struct_array_member_after_pointer_write(interpreter, meta);
         } else {
             // 従来の方式（変数ポインタまたは生メモリアドレス）
             // 左辺の変数を取得して、その型を確認
